@@ -6,6 +6,8 @@ props=[json.loads(l) for l in open('/verif/properties.jsonl')]
 sel=[p for p in props if p['id'] in pids]
 print(f"""You are working on a scratch git worktree of the Go project couchbase/sync_gateway at {wt}. Work ONLY inside {wt} and your output directory {wt}-out. Never read or write /repo or /verif or other /tmp/wt directories.
 
+NEVER use `git stash` (the stash is shared between all worktrees of this repository and other people are working in sibling worktrees): to set a change aside use `git diff > /some/file; git checkout -- .` and later `git apply /some/file`.
+
 Shell environment for every command (no network; nothing can be downloaded):
   export PATH=/opt/veriftools/go1.26.8/bin:$PATH GOFLAGS=-mod=mod GOPROXY=off GOSUMDB=off GOTOOLCHAIN=local; unset GOWORK
 
